@@ -416,6 +416,135 @@ func c15Vanishing(n int, ks []int, msize uint32, dotu bool) Scenario {
 	}}
 }
 
+// c15Reread: a directory open on a fid is listed, something happens to it through the
+// protocol (it is renamed or its mode changed through that very fid; entries are
+// created, removed, renamed through other fids), and it is listed again from offset 0
+// on the same fid: the second listing is what the host holds then.
+func c15Reread(msize uint32, dotu bool) Scenario {
+	name := fmt.Sprintf("dirread again from offset 0 after a change made through the protocol msize=%d dotu=%v", msize, dotu)
+	return Scenario{Name: name, Run: func(rc *RunCtx) *Result {
+		res := &Result{Exhaustive: true}
+		seen := map[string]bool{}
+		fail := func(sig, msg string) {
+			if !seen[sig] && len(res.Findings) < 8 {
+				seen[sig] = true
+				res.Findings = append(res.Findings, Finding{Sig: "C15/reread/" + sig, Msg: fmt.Sprintf("%s (msize %d, dotu %v)", msg, msize, dotu)})
+			}
+		}
+		noch := wire.Stat{Type: 0xFFFF, Dev: 0xFFFFFFFF, Qid: wire.Qid{Type: 0xFF, Vers: 0xFFFFFFFF, Path: ^uint64(0)}, Mode: 0xFFFFFFFF, Atime: 0xFFFFFFFF, Mtime: 0xFFFFFFFF, Length: ^uint64(0), NUid: 0xFFFFFFFF, NGid: 0xFFFFFFFF, NMuid: 0xFFFFFFFF}
+		events := []string{"nothing", "the directory renamed through the open fid", "the directory renamed through the open fid, twice", "its mode changed through the open fid", "an entry created", "an entry removed", "an entry renamed", "the directory renamed through the open fid and an entry created"}
+		for _, ev := range events {
+			base, root := scratchDir("c15r")
+			dir := filepath.Join(root, "dir")
+			os.MkdirAll(filepath.Join(dir, "sub"), 0o755)
+			for _, n := range []string{"a", "b", "c"} {
+				os.WriteFile(filepath.Join(dir, n), []byte(n), 0o644)
+			}
+			body := func() {
+				h := newUfsH(root, msize, dotu)
+				cl := h.Connect()
+				ver := "9P2000"
+				if dotu {
+					ver = "9P2000.u"
+				}
+				cl.Version(msize, ver)
+				cl.Rpc(tattach(1, 0, wire.NOFID, "", uint32(os.Geteuid()), dotu))
+				cl.Rpc(twalk(2, 0, 1, "dir"))
+				if r := cl.Rpc(&wire.Msg{Type: wire.Topen, Tag: 3, Fid: 1, Mode: 0}); r == nil || r.Type != wire.Ropen {
+					fail("setup", "cannot open the directory")
+					return
+				}
+				if _, _, bad := c15List(cl, dotu, 1, msize-24, 10); bad != "" {
+					fail("setup", "first listing: "+bad)
+					return
+				}
+				now := dir
+				ok := func(r *wire.Msg, t uint8, what string) bool {
+					if r == nil || r.Type != t {
+						fail("setup", fmt.Sprintf("%s answered %v", what, r))
+						return false
+					}
+					return true
+				}
+				rename := func(to string) bool {
+					st := noch
+					st.Name = to
+					now = filepath.Join(root, to)
+					return ok(cl.Rpc(&wire.Msg{Type: wire.Twstat, Tag: 4, Fid: 1, Stat: st}), wire.Rwstat, "Twstat renaming the directory")
+				}
+				create := func() bool {
+					cl.Rpc(twalk(2, 0, 5, filepath.Base(now)))
+					r := cl.Rpc(&wire.Msg{Type: wire.Tcreate, Tag: 4, Fid: 5, Name: "made", Perm: 0644, Mode: 1})
+					cl.Rpc(&wire.Msg{Type: wire.Tclunk, Tag: 4, Fid: 5})
+					return ok(r, wire.Rcreate, "Tcreate in the directory")
+				}
+				switch ev {
+				case "the directory renamed through the open fid":
+					if !rename("dir2") {
+						return
+					}
+				case "the directory renamed through the open fid, twice":
+					if !rename("dir2") || !rename("dir3") {
+						return
+					}
+				case "its mode changed through the open fid":
+					st := noch
+					st.Mode = 0x80000000 | 0o750
+					if !ok(cl.Rpc(&wire.Msg{Type: wire.Twstat, Tag: 4, Fid: 1, Stat: st}), wire.Rwstat, "Twstat changing the mode") {
+						return
+					}
+				case "an entry created":
+					if !create() {
+						return
+					}
+				case "an entry removed":
+					cl.Rpc(twalk(2, 0, 5, "dir", "b"))
+					if !ok(cl.Rpc(&wire.Msg{Type: wire.Tremove, Tag: 4, Fid: 5}), wire.Rremove, "Tremove of an entry") {
+						return
+					}
+				case "an entry renamed":
+					cl.Rpc(twalk(2, 0, 5, "dir", "c"))
+					st := noch
+					st.Name = "c2"
+					r := cl.Rpc(&wire.Msg{Type: wire.Twstat, Tag: 4, Fid: 5, Stat: st})
+					cl.Rpc(&wire.Msg{Type: wire.Tclunk, Tag: 4, Fid: 5})
+					if !ok(r, wire.Rwstat, "Twstat renaming an entry") {
+						return
+					}
+				case "the directory renamed through the open fid and an entry created":
+					if !rename("dir2") || !create() {
+						return
+					}
+				}
+				res.Evals++
+				names, _, bad := c15List(cl, dotu, 1, msize-24, 10)
+				if bad != "" {
+					fail("listing/"+sigWords(bad), fmt.Sprintf("after %s, reading the directory again from offset 0 on the same fid: %s", ev, bad))
+					return
+				}
+				var want []string
+				ents, _ := os.ReadDir(now)
+				for _, e := range ents {
+					want = append(want, e.Name())
+				}
+				sort.Strings(names)
+				sort.Strings(want)
+				if strings.Join(names, ",") != strings.Join(want, ",") {
+					fail("entries", fmt.Sprintf("after %s, reading the directory again from offset 0 on the same fid lists %v; the host holds %v", ev, names, want))
+				}
+			}
+			x := vs.Run(nil, body, vs.Options{Horizon: 100000000})
+			if len(x.Panics) > 0 {
+				fail("panic/"+x.Panics[0].Frame, "panic: "+x.Panics[0].Value)
+			}
+			os.RemoveAll(base)
+		}
+		res.Nontrivial = res.Evals
+		res.Samples = append(res.Samples, fmt.Sprintf("events: %v", events))
+		return res
+	}}
+}
+
 // c15LongTargets: entries far larger than a name allows - symbolic links whose target
 // (carried in the 9P2000.u stat record) is 0..hi bytes long, so that the record sizes
 // sweep every value up to well beyond 1024. Each directory {a, L -> target, z} is listed
@@ -717,6 +846,7 @@ func c15Scenarios(tier string) []Scenario {
 	}
 	out = append(out, c15Vanishing(3, all(3), 512, true), c15Vanishing(40, all(40), 4120, false))
 	out = append(out, c15ClientLongEntries(8216, true), c15ClientLongEntries(65560, true), c15ClientLongEntries(8216, false))
+	out = append(out, c15Reread(8216, false), c15Reread(256, true))
 	// message sizes that are not a whole number of host blocks plus the header
 	out = append(out, c15ClientLongEntries(6000, true), c15ClientLongEntries(8000, true), c15ClientLongEntries(4300, true), c15ClientLongEntries(12345, false))
 	out = append(out, c15OddNames(8216, true), c15OddNames(4120, false))
